@@ -27,7 +27,7 @@ def make(rng):
     for i in range(rng.randint(1, 2)):
         committers.append({'oid': 4 + i, 'n': rng.randint(1, 3), 'touch': rng.choice((None, 1, 2))})
     return {'init': init, 'packsec': packsec, 'gc': gc, 'committers': committers, 'reader': rng.randint(2, 6),
-            'second_packer': rng.random() < 0.3}
+            'second_packer': rng.random() < 0.3, 'third_packer': rng.random() < 0.15}
 
 
 def run(job):
@@ -58,6 +58,18 @@ def run(job):
         rp.open()
         st = rp.st
         serial = {}
+        # an admitted pack runs the storage's packer: record when (packs must never run side by side)
+        default_packer = st.packer
+        out['pack_windows'] = []
+
+        def traced_packer(storage, referencesf_, stop, gc_):
+            me = sched.S.me() if sched.S is not None else 'main'
+            out['pack_windows'].append(('admitted', me))
+            try:
+                return default_packer(storage, referencesf_, stop, gc_)
+            finally:
+                out['pack_windows'].append(('done', me))
+        st.packer = traced_packer
 
         def commit(stores, clk):
             clock.CLOCK.set(clk)
@@ -118,6 +130,8 @@ def run(job):
         Sc.spawn('reader', reader)
         if scen['second_packer']:
             Sc.spawn('packer2', packer('packer2'))
+        if scen.get('third_packer'):
+            Sc.spawn('packer3', packer('packer3'))
         out['outcome'] = Sc.go(timeout=60)
         sched.S = None
         out['errors'] = {k: '%s: %s' % (type(v).__name__, str(v)[:200]) for k, v in Sc.errors.items()}
@@ -173,6 +187,16 @@ def judge(out, beh):
     if beh[-1]['action'] != 'Pack':
         v.append(({'kind': 'sched', 'what': 'script-not-evaluated'}, 'the serial equivalent could not be evaluated to its end by TLC'))
         return v
+    running = None
+    for what, who in out.get('pack_windows', ()):
+        if what == 'admitted':
+            if running is not None:
+                v.append(({'kind': 'sched', 'what': 'packs-side-by-side'},
+                          'the pack requested by %s was admitted while the pack of %s was still running' % (who, running)))
+                break
+            running = who
+        elif who == running:
+            running = None
     for o, s, val in out['reads']:
         if s is None:
             if unpacked['cur'].get(o, {}).get('k') == 'rev' and o in (0, 1, 2):
